@@ -188,7 +188,7 @@ Definition enc_atom (prev_sp : bool) (c : cp) (lastb : bool) : atom :=
 Lemma enc_chars_cons p c r :
   enc_chars printable extra q p (c :: r) =
   enc_atom p c (match r with [] => true | _ => false end)
-    :: enc_chars printable extra q (eqs (escape_char printable extra c) [32]) r.
+    :: enc_chars printable extra q (eqs (escape_char printable extra c) [32] || eqs (escape_char printable extra c) [9]) r.
 Proof. reflexivity. Qed.
 
 Lemma enc_atom_snd p c lb : snd (enc_atom p c lb) = [c].
@@ -423,26 +423,29 @@ Definition rsn (p : bool) (t : str) : str :=
 
 Lemma replace_sp_nl_eq x b r :
   replace_sp_nl (x :: b :: r) =
-  if (x =? 32) && (b =? 10) then [32; 92; 110; 92; 10] ++ replace_sp_nl r else x :: replace_sp_nl (b :: r).
+  if blank x && (b =? 10) then [x; 92; 110; 92; 10] ++ replace_sp_nl r else x :: replace_sp_nl (b :: r).
 Proof. reflexivity. Qed.
 
-Lemma replace_sp_nl_cons x t : replace_sp_nl (x :: t) = x :: rsn (x =? 32) t.
+Lemma replace_sp_nl_cons x t : replace_sp_nl (x :: t) = x :: rsn (blank x) t.
 Proof. destruct t as [|b r].
-  - unfold rsn. destruct (x =? 32); reflexivity.
-  - rewrite replace_sp_nl_eq. unfold rsn. destruct (x =? 32) eqn:E; cbn [andb]; [|reflexivity].
-    apply N.eqb_eq in E. subst x. destruct (b =? 10); reflexivity.
+  - unfold rsn. destruct (blank x); reflexivity.
+  - rewrite replace_sp_nl_eq. unfold rsn. destruct (blank x) eqn:E; cbn [andb]; [|reflexivity].
+    destruct (b =? 10); reflexivity.
 Qed.
 
-Lemma rsn_not_nl p x t : x <> 10 -> rsn p (x :: t) = x :: rsn (x =? 32) t.
+Lemma blank_false x : x <> 32 -> x <> 9 -> blank x = false.
+Proof. intros H1 H2. unfold blank. apply N.eqb_neq in H1. apply N.eqb_neq in H2. rewrite H1, H2. reflexivity. Qed.
+
+Lemma rsn_not_nl p x t : x <> 10 -> rsn p (x :: t) = x :: rsn (blank x) t.
 Proof. intros Hx. unfold rsn at 1. destruct (x =? 10) eqn:E; [apply N.eqb_eq in E; congruence|].
   destruct p; apply replace_sp_nl_cons. Qed.
 
-Lemma rsn_free t : forall w p, Forall (fun x => x <> 32 /\ x <> 10) w -> (w = [] -> p = false) ->
+Lemma rsn_free t : forall w p, Forall (fun x => x <> 32 /\ x <> 9 /\ x <> 10) w -> (w = [] -> p = false) ->
   rsn p (w ++ t) = w ++ rsn false t.
 Proof. induction w as [|x w IH]; intros p Hw Hp.
   - rewrite Hp by reflexivity. reflexivity.
-  - inversion Hw as [|x' w' [Hx1 Hx2] Hw']; subst. cbn [app]. rewrite rsn_not_nl by exact Hx2.
-    destruct (x =? 32) eqn:E; [apply N.eqb_eq in E; congruence|]. rewrite IH; auto.
+  - inversion Hw as [|x' w' [Hx1 [Hx9 Hx2]] Hw']; subst. cbn [app]. rewrite rsn_not_nl by exact Hx2.
+    rewrite (blank_false x Hx1 Hx9). rewrite IH; auto.
 Qed.
 
 Lemma unicode_escape_ge c : Forall (fun x => 48 <= x) (unicode_escape c).
@@ -509,7 +512,7 @@ Proof. reflexivity. Qed.
 (* what one piece does to the space-newline replacement *)
 Lemma rsn_piece p c w t :
   (w = escape_char printable extra c \/ w = last_piece c) -> (c =? 10) && p = false ->
-  rsn p (w ++ t) = w ++ rsn (eqs (escape_char printable extra c) [32]) t.
+  rsn p (w ++ t) = w ++ rsn (eqs (escape_char printable extra c) [32] || eqs (escape_char printable extra c) [9]) t.
 Proof. intros Hw Hp.
   assert (Hesc : forall v, (v = [92; q] \/ v = unicode_escape c \/ v = [92; c] /\ extra = Some c) ->
             rsn p (v ++ t) = v ++ rsn false t).
@@ -522,13 +525,13 @@ Proof. intros Hw Hp.
       destruct (unicode_escape_len c) as [a [b [u Hu]]]. rewrite Hu. discriminate. }
   destruct (escape_char_cases printable extra Hextra c) as [[E [Hbs Hne]]|[E|[He E]]].
   - (* raw character *)
-    rewrite E, eqs_single. unfold last_piece in Hw. rewrite E, eqs_single in Hw.
+    rewrite E, !eqs_single. fold (blank c). unfold last_piece in Hw. rewrite E, eqs_single in Hw.
     destruct ((c =? q) && extra_none) eqn:Eq.
     + destruct Hw as [-> | ->].
       * apply andb_prop in Eq. destruct Eq as [Eq _]. apply N.eqb_eq in Eq. subst c.
         cbn [app]. rewrite rsn_not_nl by lia. reflexivity.
       * apply andb_prop in Eq. destruct Eq as [Eq _]. apply N.eqb_eq in Eq. subst c.
-        rewrite Hesc by auto. destruct (q =? 32) eqn:E32; [apply N.eqb_eq in E32; lia | reflexivity].
+        rewrite Hesc by auto. rewrite blank_false by lia. reflexivity.
     + assert (Hw' : w = [c]) by (destruct Hw; auto). subst w. cbn [app].
       destruct p.
       * rewrite andb_true_r in Hp. apply N.eqb_neq in Hp. apply rsn_not_nl. exact Hp.
@@ -536,18 +539,18 @@ Proof. intros Hw Hp.
   - assert (Hw' : w = unicode_escape c).
     { destruct Hw as [-> | ->]; [exact E|]. unfold last_piece. rewrite E.
       destruct (unicode_escape_len c) as [a [b [u Hu]]]. rewrite Hu, eqs_len2. reflexivity. }
-    rewrite E. assert (H32 : eqs (unicode_escape c) [32] = false).
-    { destruct (unicode_escape_len c) as [a [b [u Hu]]]. rewrite Hu. apply eqs_len2. }
-    rewrite H32. subst w. apply Hesc. auto.
+    rewrite E. assert (H32 : forall x, eqs (unicode_escape c) [x] = false).
+    { intros x. destruct (unicode_escape_len c) as [a [b [u Hu]]]. rewrite Hu. apply eqs_len2. }
+    rewrite !H32. subst w. apply Hesc. auto.
   - assert (Hw' : w = [92; c]).
     { destruct Hw as [-> | ->]; [exact E|]. unfold last_piece. rewrite E, eqs_len2. reflexivity. }
-    rewrite E, eqs_len2. subst w. apply Hesc. auto.
+    rewrite E, !eqs_len2. subst w. apply Hesc. auto.
 Qed.
 
 Lemma flat_enc_chars : forall s p,
   flat (enc_chars printable extra q p s) = rsn p (concat (enc0 s)).
 Proof. induction s as [|c r IH]; intros p; [destruct p; reflexivity|].
-  rewrite enc_chars_cons. unfold flat. cbn [map concat enc0]. fold (flat (enc_chars printable extra q (eqs (escape_char printable extra c) [32]) r)).
+  rewrite enc_chars_cons. unfold flat. cbn [map concat enc0]. fold (flat (enc_chars printable extra q (eqs (escape_char printable extra c) [32] || eqs (escape_char printable extra c) [9]) r)).
   rewrite IH.
   destruct ((c =? 10) && p) eqn:E1.
   - (* space-newline *)
